@@ -106,6 +106,22 @@ def g_wide(r, n):
     return out
 
 
+def g_neartwins(r, n):
+    """distinct points closer than 2^-40 (1e-12 is 2^-39.9) next to coarse ones: the tree has to separate them (depth ~50),
+    nothing may be merged as if it were a coincident point"""
+    m = max(1, n - r.range(1, 3))
+    base = [(dy(r.range(-15, 15), -3), dy(r.range(-15, 15), -3)) for _ in range(m)]
+    out = list(base)
+    while len(out) < max(n, m + 1):
+        b = r.choice(base)
+        ox = r.choice([-1, 0, 1]) * dy(1, -r.range(41, 48))
+        oy = r.choice([-1, 0, 1]) * dy(1, -r.range(41, 48))
+        if ox == 0 and oy == 0:
+            ox = dy(1, -r.range(41, 48))
+        out.append((b[0] + ox, b[1] + oy))
+    return r.shuffle(out)
+
+
 def g_boundary(r, n):
     """explicit dyadic root; points exactly on cell boundaries of levels 0..4 and on the root boundary"""
     a, b = r.range(-1, 3), r.range(-1, 3)
@@ -139,7 +155,7 @@ def enclosing_root(r, pts, tight=False):
 
 
 FAMILIES = [("generic", g_generic), ("clustered", g_clustered), ("collinear", g_collinear),
-            ("coincident", g_coincident), ("wide", g_wide)]
+            ("coincident", g_coincident), ("wide", g_wide), ("neartwins", g_neartwins)]
 
 
 def make_case(r, fam, n):
@@ -441,7 +457,7 @@ def correspond(ctx):
             base = make_case(r.fork(), fam, n)
             nsweeps += order_sweep(ctx, binary, base, "orders/" + base["label"])
     ctx.extra["order_sweeps"] = {"orders_run": nsweeps, "sizes": [n for n, _ in sweeps]}
-    ctx.cov["rule"] = ("dyadic 2-D point sets from 6 families (generic, clustered, collinear, coincident groups, coordinates spanning 2^40, "
+    ctx.cov["rule"] = ("dyadic 2-D point sets from 7 families (generic, clustered, collinear, coincident groups, coordinates spanning 2^40, distinct points closer than 2^-40, "
                        "points on cell/root boundaries of explicit dyadic roots), default and explicit root cells, N = 1..%d, one random order each, "
                        "plus every insertion order of %d small sets; theta in {0, 2^-20, 0.1, 0.5, 1, 2}; non-trivial = at least two distinct "
                        "points; distinct by case text" % (24 if quick else 120, sum(k for _, k in sweeps)))
